@@ -658,17 +658,17 @@ def run(chk):
                        "non-trivial = distinct (input, options, edit script) whose repair completed")
     # ---- inputs
     inputs = []
-    for name, data, doc in filecheck.gen_docs(rng, 5 if quick else 40) + special_docs(rng):
+    for name, data, doc in filecheck.gen_docs(rng, 5 if quick else 30) + special_docs(rng):
         p = os.path.join(wd, name + ".pdf")
         open(p, "wb").write(data)
         inputs.append((name, p, "generated"))
     if not quick:
-        for name, data, doc in filecheck.gen_docs(rng, 6, big=True):
+        for name, data, doc in filecheck.gen_docs(rng, 4, big=True):
             p = os.path.join(wd, "big" + name + ".pdf")
             open(p, "wb").write(data)
             inputs.append(("big" + name, p, "generated"))
-    cf = [f for f in filecheck.corpus_files() if os.path.getsize(f) <= (30000 if quick else 100000)]
-    for f in rng.sample(cf, 14 if quick else min(len(cf), 300)):
+    cf = [f for f in filecheck.corpus_files() if os.path.getsize(f) <= (30000 if quick else 60000)]
+    for f in rng.sample(cf, 14 if quick else min(len(cf), 100)):
         inputs.append((os.path.basename(f), f, "corpus"))
     fnd = []
     for name, data in finding_docs():
@@ -679,7 +679,7 @@ def run(chk):
     jobs = []
     for name, p, kind in inputs:
         for mode in MODES:
-            subs = [[]] + rng.sample(SUBOPTS[1:], 1 if quick else 4)
+            subs = [[]] + rng.sample(SUBOPTS[1:], 1 if quick else 3)
             for sub in subs:
                 jobs.append((name, p, kind, ["--qdf", "--object-streams=" + mode] + sub))
     for name, p, kind in fnd:
@@ -763,7 +763,7 @@ def run(chk):
     chk.cov["parts"]["unedited-qdf"]["with_xref_stream"] = sum(1 for _, _, _, sd in base if sd.xref_stream)
 
     # ---- layout-preserving edit scripts
-    per_file = 3 if quick else 10
+    per_file = 3 if quick else 5
     ecases = []
     rejected = 0
     for (i, out, lines, sd) in base:
@@ -827,7 +827,7 @@ def run(chk):
 
     # ---- layout-breaking edits: fatal and exception paths, model = binary
     bcases = []
-    per_file = 3 if quick else 12
+    per_file = 3 if quick else 6
     for (i, out, lines, sd) in base:
         for s in range(per_file):
             ls, what = breaking_edit(rng, lines)
